@@ -17,9 +17,13 @@ use super::shim::*;
 }
 use specs::*;
 use anyhow::Result;
+use core::marker::PhantomData;
+use std::collections::HashMap;
 type DatagramPacket = (BytesMut, Address);
 broadcast use axiom_v4_len, axiom_v6_len, axiom_string_utf8, axiom_ascii_utf8, axiom_unhex_len;
 //@include ../parts/addr.rs
 //@include ../parts/trojan.rs
+//@include ../parts/config.rs
+//@include ../parts/tjkeys.rs
 } // verus!
 fn main() {}
